@@ -2,7 +2,7 @@
 import e2
 
 TIE = ["Nsq.Tie.Chan"]
-PROPS = ["Nsq.Props.C01"]
+PROPS = ["Nsq.Props.C01", "Nsq.Props.C01Live"]
 
 
 def run(ctx):
@@ -13,9 +13,13 @@ def run(ctx):
                 "every history each channel is drained by a well-behaved consumer and finished+emptied+sampled-out must equal "
                 "the acknowledged publishes the channel was entitled to; no message body/id that was never published")
     ctx.assumptions += [
-        "liveness ('keeps being redelivered for as long as the daemon runs') needs Go scheduler fairness and the timing of "
-        "queueScanLoop: only enabledness is proved (deliver_enabled, timeout_enabled, deferred_enabled, pump_enabled); the "
-        "drain-and-compare oracle measures it",
+        "liveness ('keeps being redelivered for as long as the daemon runs') is proved in Nsq.Props.C01Live "
+        "(eventually_delivered, redelivered_until_gone) for every infinite schedule of the channel model UNDER the named fairness "
+        "hypotheses FairScanInFlight / FairScanDeferred (weak fairness of a scan tick with t >= deadline), FairTake (strong fairness "
+        "of the consumer pumps towards each queued message: the queue is a bag, Go's select decides which message a pump receives) "
+        "and ReadyInfOften (some consumer's guard holds infinitely often); that the Go scheduler, timers and queueScanLoop satisfy "
+        "them is NOT discharged (tick-count side: Nsq.Props.C04Live); the drain-and-compare oracle measures it",
+        "topic level: only enabledness of the fan-out step is proved (pump_enabled)",
         "an #ephemeral channel may drop on overflow and a sampling consumer may drop: the two deliberate drops of the statement",
         "Channel.Empty / channel deletion / shutdown windows belong to C08 / C05",
     ]
